@@ -5,7 +5,7 @@ UNITS = ["evdns.c"]
 FUNCTIONS = ["name_parse", "reply_parse", "reply_handle", "reply_schedule_callback"]
 FUNCTIONS += ["reply_run_callback"]
 BOUNDS = ("name_parse: every packet of <= 12 (quick) / 16 (thorough) octets for memory safety and termination, <= 8 / 9 octets for equivalence with the "
-          "reference decoder, any start index, output size 0..L+2, exact-size objects. reply_parse..reply_run_callback: every reply of <= 32 (quick) / 44 "
+          "reference decoder, any start index, output size 0..L+2, exact-size objects. reply_parse..reply_run_callback: every reply of <= 32 (quick) / 48 "
           "(thorough) octets, one pending A/AAAA/PTR request with/without DNS_CNAME_CALLBACK and 0x20, QDCOUNT<=1, ANCOUNT<=2, NSCOUNT<=1, decoded names <= 3 "
           "octets (name_parse replaced by its contract), optional solver-chosen allocation failures.")
 OUT = ("UDP/TCP framing and segmentation (nameserver_read, client_tcp_read_packet_cb); authority-section (SOA) TTL handling and NODATA classification are only "
@@ -21,7 +21,7 @@ NOTE = ("Trusted: cbmc 6.11, ref/dns_ref.h, the name_parse contract stub (states
         "bound), recorders listed in harness/C33_reply_parse.c, a 10-line model of evutil_ascii_strcasecmp. Tolerated via expect_fail: name_parse computes "
         "`cp + label_len` past the end of name_out before comparing (C undefined behaviour, never dereferenced). Findings: C33-cname-leak, C33-unchecked-malloc, "
         "C33-reserved-label-type (fixes/). Observation: an A record with RDLENGTH 0 yields a success callback with count 0.")
-ASSUMPTIONS = ["name_parse behaves per its contract outside the verified packet bound (the contract is proved for packets <= 16 octets, used for replies <= 44)",
+ASSUMPTIONS = ["name_parse behaves per its contract outside the verified packet bound (the contract is proved for packets <= 16 octets, used for replies <= 48)",
                "callbacks below reply_handle (request_finished, nameserver_up/failed, request_reissue, timeout, TCP retry) do not touch the reply object",
                "handle->user_callback is the harness recorder (other functions of the same type are cut)",
                "evutil_ascii_strcasecmp is ASCII case-insensitive comparison (model in the harness)"]
@@ -86,6 +86,6 @@ def obligations(tier):
         strict["desc"] = "as np_func_L8, and names containing a reserved label type (01/10) must be rejected (finding C33-reserved-label-type)"
         obs = [np_ob("np_safe_front_L16", 16, "safe", timeout=1800), np_ob("np_safe_tail_L12", 12, "safe", front=False, timeout=1800),
                np_ob("np_func_L9", 9, "func", timeout=1800), strict,
-               rp_ob("reply_wf_L44", 44, extra=["C33R_KF_EXCLUDE_CNAME_LEAK"], timeout=2400, mem_gb=12), rp_ob("reply_L44", 44, timeout=2400, mem_gb=12),
+               rp_ob("reply_wf_L48", 48, extra=["C33R_KF_EXCLUDE_CNAME_LEAK"], timeout=3000, mem_gb=12), rp_ob("reply_L48", 48, timeout=3000, mem_gb=12),
                rp_ob("reply_allocfail_L32", 32, extra=["C33R_ALLOC_FAIL"])]
     return obs
